@@ -4,7 +4,7 @@ Space (input tree, shape a): ALL pairs of sequences (s, t) with |s|+|t| <= L up 
 a restricted-growth string over the concatenation s+t plus a split point.  The implementation only ever compares
 symbols for equality, and edit distance is invariant under bijective renaming, so this covers every pair over every
 alphabet of that total length.  Each canonical pair is rendered with four symbol types (ints, 1-char strings,
-multi-char tokens, a mixed alphabet in which 1 and '1' are different symbols).  Costs (sub, ins, del) range over a
+multi-char tokens, a mixed alphabet in which 1 and '1' are different symbols; up to Lh also distinct ints of equal hash).  Costs (sub, ins, del) range over a
 full cube on the pairs with |s|+|t| <= Lc.
 
 Oracle: full-matrix Wagner-Fischer / brute force over all substrings (mc/refmodels/editdist.py).
@@ -26,17 +26,20 @@ def nabs(x):
 
 MANIFEST = dict(
     technique='explicit-state enumeration of all sequence pairs up to renaming (restricted-growth strings), real code vs Wagner-Fischer / brute-force substring oracle',
-    text='Bounded exhaustive: every pair of sequences with |s|+|t| <= 7 (quick) / 9 (thorough) up to symbol renaming, in four symbol renderings, plus the full cost cube on short pairs and all 1-3-tuples of a summary pool, is executed on the real functions and compared with an independent full-matrix reference. Optimality is a for-all over alignments, so only enumeration against a reference decides it. Added sub-sweeps: tuples / numpy arrays as inputs (left untouched, second call equal), aggregates of aggregates, and structured pairs of 130-520 symbols. One list object edited in place (same length) between two calls. Wave 10: every single failing array allocation of the six functions on all pairs with |s|+|t| <= 4 (5 thorough): the call may report the failure, an answer it returns must be the distance / a projecting alignment of that cost.',
+    text='Bounded exhaustive: every pair of sequences with |s|+|t| <= 7 (quick) / 9 (thorough) up to symbol renaming, in four symbol renderings, plus the full cost cube on short pairs and all 1-3-tuples of a summary pool, is executed on the real functions and compared with an independent full-matrix reference. Optimality is a for-all over alignments, so only enumeration against a reference decides it. Added sub-sweeps: tuples / numpy arrays as inputs (left untouched, second call equal), aggregates of aggregates, and structured pairs of 130-520 symbols. One list object edited in place (same length) between two calls. Wave 10: every single failing array allocation of the six functions on all pairs with |s|+|t| <= 4 (5 thorough): the call may report the failure, an answer it returns must be the distance / a projecting alignment of that cost. Wave 11: a fifth rendering over DISTINCT ints of EQUAL hash (-1/-2, k and k + 2**61-1) on all pairs with |s|+|t| <= 6 (8 thorough); and, on all pairs with |s|+|t| <= 5 in every rendering, a two-use history of the three list-returning functions: the caller keeps a result across later calls (it still reads the same), then extends the returned lists in place and aligns the same and the reversed pair again (every new answer, and the line summary, is judged against the reference); likewise an aggregate the caller added to, then aggregate again.',
     note='Assumes the functions compare symbols only for equality (renaming invariance); sequences longer than the bound are not explored.',
     ref='3/C13')
 
 RENDERS = ['int', 'str', 'tok', 'mixed']
 MIXED = ['a', 1, '1', 'b', 2, '2', 'c', 3, '3', 'd', 4, '4']
+_M = 2 ** 61 - 1            # CPython hashes ints modulo this prime, and hash(-1) == hash(-2) == -2
+# DISTINCT ints in four classes of EQUAL hash (-2, 0, 1, 2): labels 0 and 1 of every canonical pair already collide
+HASHTWIN = [-1, -2, 0, _M, 1, _M + 1, -_M, 2 * _M, 2, _M + 2, -_M - 1, -_M - 2]
 TOK = ['a', 'bb', 'ccc', 'b', 'aa', 'cc', 'abc', 'c', 'ab', 'bc', 'ca', 'cab']
 
 BOUNDS = {
-    'quick': dict(L=7, Lc=5, costs=[1, 2, 3], agg_pool=6, Lf=4),
-    'thorough': dict(L=9, Lc=6, costs=[1, 2, 3, 4], agg_pool=9, Lf=5),
+    'quick': dict(L=7, Lc=5, costs=[1, 2, 3], agg_pool=6, Lf=4, Lh=6),
+    'thorough': dict(L=9, Lc=6, costs=[1, 2, 3, 4], agg_pool=9, Lf=5, Lh=8),
 }
 BOUNDS['replay'] = BOUNDS['quick']
 NCHUNK = 8
@@ -51,6 +54,8 @@ def render(labels, r):
         return [TOK[x] for x in labels]
     if r == 'mixed':
         return [MIXED[x] for x in labels]
+    if r == 'hashtwin':
+        return [HASHTWIN[x] for x in labels]
     if r == 'tok7':
         return ['t%d' % x for x in labels]
     raise ValueError(r)
@@ -81,6 +86,10 @@ def shards(tier):
         for r in RENDERS:
             for j in range(n):
                 out.append({'kind': 'pairs', 'L': L, 'render': r, 'chunk': j, 'of': n})
+    for L in range(0, b.get('Lh', 6) + 1):             # the alphabet of distinct ints with equal hash
+        n = NCHUNK if L >= 7 else 1
+        for j in range(n):
+            out.append({'kind': 'pairs', 'L': L, 'render': 'hashtwin', 'chunk': j, 'of': n})
     for L in range(0, b['Lc'] + 1):
         out.append({'kind': 'costs', 'L': L})
     out.append({'kind': 'agg'})
@@ -166,6 +175,99 @@ def seq_same(xs, ys):
     return len(xs) == len(ys) and all(same(x, y) for x, y in zip(xs, ys))
 
 
+def pairs_defect(al, s, t, want, costs=(1, 1, 1)):
+    """None if `al` is an alignment of s and t of cost `want`, else (clause, what)"""
+    try:
+        p1 = [a for a, b in al if a is not None]
+        p2 = [b for a, b in al if b is not None]
+    except (TypeError, ValueError):
+        return 'alignment-projects-onto-inputs', 'projection'
+    if not (seq_same(p1, s) and seq_same(p2, t)):
+        return 'alignment-projects-onto-inputs', 'projection'
+    if align_cost(al, *costs) != want:
+        return 'alignment-has-exactly-the-distance', 'cost'
+    return None
+
+
+def path_defect(path, s, t, want, costs=(1, 1, 1)):
+    pr = path_pairs(path, s, t)
+    if pr is None:
+        return 'alignment-projects-onto-inputs', 'projection'
+    if align_cost(pr, *costs) != want:
+        return 'alignment-has-exactly-the-distance', 'cost'
+    return None
+
+
+def substring_alignment_defect(al, s, t, cands):
+    try:
+        p1 = [a for a, b in al if a is not None]
+        p2 = [b for a, b in al if b is not None]
+    except (TypeError, ValueError):
+        return 'alignment-projects-onto-inputs', 'projection'
+    if not (seq_same(p1, s) and seq_same(p2, t)):
+        return 'alignment-projects-onto-inputs', 'projection'
+    frees = [(lambda p: p[1] is None)] if len(s) > len(t) else [(lambda p: p[0] is None)] if len(t) > len(s) else \
+        [(lambda p: p[1] is None), (lambda p: p[0] is None)]
+    for free in frees:
+        core = list(al)
+        while core and free(core[0]):
+            core.pop(0)
+        while core and free(core[-1]):
+            core.pop()
+        if align_cost(core, 1, 1, 1) in cands:
+            return None
+    return 'substring-alignment-has-that-cost', 'cost'
+
+
+def check_results_owned_by_the_caller(s, t, want, cands, K, ctx):
+    """History of two uses of one pair (and of the reversed pair) in one process.  A returned alignment belongs to the caller:
+    (a) it is still what it was after further calls; (b) the caller extends the lists it was given (a page-level alignment built with +=)
+    and asks again - every new answer is that of the inputs.  Only new ANSWERS are judged, always against the reference."""
+    from pero_ocr import sequence_alignment as sa
+    from pero_ocr.error_summary import ErrorsSummary
+    x = s[0] if s else t[0] if t else 'x'
+    fns = [('alignment', sa.levenshtein_alignment, (x, x), lambda v, a, b: pairs_defect(v, a, b, want)),
+           ('path', sa.levenshtein_alignment_path, 0.0, lambda v, a, b: path_defect(v, a, b, want)),
+           ('substring-alignment', sa.levenshtein_alignment_substring, (x, x), lambda v, a, b: substring_alignment_defect(v, a, b, cands))]
+    for short, fn, filler, defect in fns:
+        r1 = fn(list(s), list(t))
+        snap1 = list(r1)
+        r2 = fn(list(t), list(s))
+        snap2 = list(r2)
+        fn(list(s), list(t))
+        ctx.executed(3)
+        ctx.tag('earlier-result-kept-across-later-calls')
+        if list(r1) != snap1 or list(r2) != snap2:
+            ctx.violation('alignment-projects-onto-inputs', f'{K}/{short}/earlier-result-changed-by-a-later-call',
+                          f'levenshtein {short} of ({s!r},{t!r}) was {snap1!r}; after aligning the reversed pair and the same pair again the '
+                          f'list the caller holds reads {r1!r} (reversed pair: {snap2!r} -> {r2!r})')
+            continue
+        try:
+            for mine, other in ((r1, snap2), (r2, snap1)):
+                n = len(mine)
+                mine += other
+                if len(mine) == n:
+                    mine.append(filler)
+            q1, q2 = fn(list(s), list(t)), fn(list(t), list(s))
+            ctx.executed(2)
+            ctx.tag('returned-list-extended-then-asked-again')
+            bad = defect(q1, s, t) or defect(q2, t, s)
+            if bad:
+                ctx.violation(bad[0], f'{K}/{short}/{bad[1]}-after-the-caller-extended-an-earlier-result',
+                              f'levenshtein {short}: the caller extended the lists returned for ({s!r},{t!r}) and the reversed pair in place '
+                              f'(now {r1!r} / {r2!r}); asked again: {q1!r} / {q2!r}; distance {want}')
+            elif short == 'alignment':
+                es = ErrorsSummary.from_lists(list(s), list(t))
+                ctx.executed()
+                if es.nb_subs + es.nb_inss + es.nb_dels != want or es.nb_errors != want or es.ref_len != len(s):
+                    ctx.violation('summary-counts-add-up-to-distance', f'{K}/summary/counts-after-the-caller-extended-an-earlier-alignment',
+                                  f'ErrorsSummary.from_lists(ref={s!r}, hyp={t!r}) after the caller extended earlier alignments of this pair in place: '
+                                  f'subs={es.nb_subs} ins={es.nb_inss} dels={es.nb_dels} errors={es.nb_errors} ref_len={es.ref_len}; distance={want}')
+        finally:
+            r1[:] = snap1                              # the caller undoes its edit: the following cases do not depend on this one
+            r2[:] = snap2
+
+
 def check_pair(case, ctx):
     from pero_ocr import sequence_alignment as sa
     r = case['render']
@@ -177,6 +279,8 @@ def check_pair(case, ctx):
     if case.get('long'):
         ctx.tag('sequences-longer-than-255')
     K = f'{ID}/{r}'
+    if r == 'hashtwin' and any(hash(a) == hash(b) and a != b for a in s for b in t):
+        ctx.tag('distinct-symbols-with-equal-hash')
     if not unit:
         K += '/costs'
 
@@ -350,6 +454,9 @@ def check_pair(case, ctx):
                       f'ErrorsSummary.from_lists(ref={s!r}, hyp={t!r}): subs={es.nb_subs} ins={es.nb_inss} '
                       f'dels={es.nb_dels} errors={es.nb_errors} ref_len={es.ref_len}; distance={d}')
 
+    if len(s) + len(t) <= 5:
+        check_results_owned_by_the_caller(s, t, want, cands, K, ctx)
+
 
 def summary_fields(es):
     e = es.ending_errors
@@ -418,6 +525,22 @@ def check_agg(case, ctx):
                 break
     if want['ref_len'] > 0 and nabs(agg.error_rate - want['errors'] / want['ref_len']) > 1e-12:
         ctx.violation('aggregation-is-plain-addition', f'{ID}/aggregate/error-rate', f'{agg.error_rate}')
+    # the aggregate belongs to the caller: it adds to it in place (document total), then aggregates the same summaries again
+    agg.nb_lines_summarized += 1
+    agg.ref_len += 2
+    agg.nb_errors += 1
+    agg.nb_subs += 1
+    for k in list(agg.confusions):
+        agg.confusions[k].update(agg.confusions[k])
+    agg.ending_errors += agg.ending_errors
+    g3 = summary_fields(ErrorsSummary.aggregate(items))
+    ctx.executed()
+    ctx.tag('returned-aggregate-edited-then-asked-again')
+    g3['conf'] = [(k, [tuple(x) for x in c]) for k, c in g3['conf']]
+    if g3 != want:
+        bad = [k for k in want if g3[k] != want[k]]
+        ctx.violation('aggregation-is-plain-addition', f'{ID}/aggregate-after-the-caller-added-to-an-earlier-aggregate/{"+".join(bad)}',
+                      f'aggregate over {case["items"]} once more after the caller added to the first aggregate in place: got {g3}, field-wise sum {want}')
 
 
 def path_pairs(path, s, t):
@@ -532,5 +655,7 @@ def describe(tier):
                         'for equal-length inputs either sequence may play the role of "the longer sequence"',
                         'sequences longer than the bound and costs above 4 are not explored'],
         'min_nontrivial': 10,
-        'required_tags': ['list-edited-in-place-changes-the-distance', 'optimum-beats-diagonal', 'substring-beats-whole', 'aggregate-of-several', 'other-containers', 'sequences-longer-than-255', 'other-gap-symbol', 'fault-points', 'failure-reported'],
+        'required_tags': ['list-edited-in-place-changes-the-distance', 'optimum-beats-diagonal', 'substring-beats-whole', 'aggregate-of-several', 'other-containers', 'sequences-longer-than-255', 'other-gap-symbol', 'fault-points', 'failure-reported',
+                          'distinct-symbols-with-equal-hash', 'earlier-result-kept-across-later-calls', 'returned-list-extended-then-asked-again',
+                          'returned-aggregate-edited-then-asked-again'],
     }
